@@ -17,6 +17,7 @@ var ErrInjectedDB = errors.New("SIMFAULT-DB disk I/O error")
 type SeamCall struct {
 	Seq   int
 	Node  string
+	Task  string
 	Label string
 	Err   bool
 }
@@ -31,9 +32,11 @@ type simMintDB struct {
 
 func (d *simMintDB) pre(label string) bool {
 	inj := d.s.Yield(d.inc, "db", label)
-	if !d.s.IsDriver() {
-		*d.log = append(*d.log, SeamCall{d.s.Seq(), d.inc.Node, label, inj})
+	task := "driver"
+	if t := d.s.CurrentTask(); t != nil {
+		task = t.Name
 	}
+	*d.log = append(*d.log, SeamCall{d.s.Seq(), d.inc.Node, task, label, inj})
 	return inj
 }
 
